@@ -24,66 +24,9 @@ PQ_RS = "src/priority_queue/mod.rs"
 DQ_RS = "src/double_priority_queue/mod.rs"
 
 
-class Unparsed(Exception):
-    pass
-
-
-# ----------------------------------------------------------------------------------------------------
-# tokenizer
-# ----------------------------------------------------------------------------------------------------
-
-def strip_comments(src):
-    out = []
-    i, n = 0, len(src)
-    while i < n:
-        c = src[i]
-        if src.startswith("//", i):
-            j = src.find("\n", i)
-            i = n if j < 0 else j
-        elif src.startswith("/*", i):
-            depth, i = 1, i + 2
-            while i < n and depth:
-                if src.startswith("/*", i):
-                    depth += 1; i += 2
-                elif src.startswith("*/", i):
-                    depth -= 1; i += 2
-                else:
-                    i += 1
-            out.append(" ")
-        elif c == '"':
-            j = i + 1
-            while j < n and src[j] != '"':
-                j += 2 if src[j] == "\\" else 1
-            out.append(src[i:j + 1])
-            i = j + 1
-        else:
-            out.append(c); i += 1
-    return "".join(out)
-
-
-TOKEN_RE = re.compile(r"""
-    (?P<ws>\s+)
-  | (?P<life>'[A-Za-z_][A-Za-z_0-9]*(?!'))
-  | (?P<chr>'(?:\\.|[^'\\])')
-  | (?P<id>[A-Za-z_][A-Za-z_0-9]*)
-  | (?P<num>\d[\d_]*(?:usize|u32|u64|i32)?)
-  | (?P<op>\.\.=|\.\.\.|<<=|>>=|::|->|=>|==|!=|<=|>=|&&|\|\||\+=|-=|\*=|/=|\.\.|[-+*/%<>=!&|.,;:(){}\[\]#?@^~$])
-  | (?P<str>"(?:\\.|[^"\\])*")
-""", re.X)
-
-
-def tokenize(src):
-    toks, i = [], 0
-    while i < len(src):
-        m = TOKEN_RE.match(src, i)
-        if not m:
-            raise Unparsed("cannot tokenize at: %r" % src[i:i + 20])
-        i = m.end()
-        k = m.lastgroup
-        if k == "ws":
-            continue
-        toks.append((k, m.group(k)))
-    return toks
+sys.path.insert(0, os.path.dirname(os.path.abspath(__file__)))
+import src_skeleton
+from src_skeleton import Unparsed, strip_comments, tokenize     # the tokenizer is shared with the skeleton check
 
 
 # ----------------------------------------------------------------------------------------------------
@@ -357,11 +300,13 @@ def count_defs(texts, names):
 
 def global_checks(sources):
     """problems that invalidate every translation"""
-    problems = []
+    # the crate-wide item skeleton (tools/src_skeleton.py): files, items, impl headers, signatures, frozen helper bodies,
+    # Cargo.toml, build.rs
+    problems = ["skeleton: " + p for p in src_skeleton.check(REPO)]
     try:
         texts = all_src_files()
-    except OSError as ex:
-        return ["cannot read the sources: %s" % ex]
+    except (OSError, Unparsed) as ex:
+        return problems + ["cannot read the sources: %s" % ex]
     for file, text in texts.items():
         if re.search(r"\bmacro_rules\b", text):
             problems.append("`macro_rules!` in %s (a macro could define or replace any function)" % file)
@@ -400,6 +345,8 @@ def global_checks(sources):
 # ----------------------------------------------------------------------------------------------------
 
 class Parser:
+    uses = []                       # the `use` declarations met since the last `parse_fn_body` (checked by its callers)
+
     def __init__(self, toks):
         self.t, self.i = toks, 0
 
@@ -500,9 +447,13 @@ class Parser:
             b = self.block()
             return ("for", pat, it, b), False
         if v == "use":
+            u = []
             while self.peek() != ";":
-                self.eat()
+                u.append(self.eat())
             self.eat(";")
+            # a `use` inside a body can rebind any name the lowering resolves textually: only the ones that are there
+            # today are accepted, per function (BODY_USES)
+            Parser.uses.append(" ".join(u))
             return ("expr", ("tuple", [])), False
         if v in ("loop", "static", "fn", "struct", "impl", "continue"):
             raise Unparsed("statement `%s`" % v)
@@ -822,11 +773,23 @@ class Parser:
         raise Unparsed("unexpected token %r" % v)
 
 
-def parse_fn_body(btoks):
+# the `use` declarations inside the bodies of the translated functions, as they are today (token-exact)
+MUTABLE_KEYS = "use indexmap :: map :: MutableKeys"
+ENTRY_GLOB = "use indexmap :: map :: Entry :: *"
+BODY_USES = {"pqPeekMut": [MUTABLE_KEYS], "dqPeekMinMut": [MUTABLE_KEYS], "dqPeekMaxMut": [MUTABLE_KEYS],
+             "pqPush": [ENTRY_GLOB], "dqPush": [ENTRY_GLOB],
+             "pqIterMutNext": [MUTABLE_KEYS], "dqIterMutNext": [MUTABLE_KEYS], "dqIterMutNextBack": [MUTABLE_KEYS]}
+
+
+def parse_fn_body(btoks, fnid=None):
+    Parser.uses = []
     p = Parser(btoks)
     b = p.block()
     if p.i != len(btoks):
         raise Unparsed("trailing tokens after the function body")
+    if Parser.uses != BODY_USES.get(fnid, []):
+        raise Unparsed("the `use` declarations inside the body are %s, expected %s (a body-level `use` can rebind any name)"
+                       % (json.dumps(Parser.uses), json.dumps(BODY_USES.get(fnid, []))))
     return b
 
 
@@ -2508,7 +2471,7 @@ def lower_function(fnid, file, rust, owner, sites, sources, selector=None):
             {"n": nparams, "p": pparams, "v": vparams}[reg[0]].append(reg[1])
     rk = ret_kind(rtoks)
     lw.ret_kind = rk
-    body = lw.block_stmts(parse_fn_body(btoks), rk)
+    body = lw.block_stmts(parse_fn_body(btoks, fnid), rk)
     if lw.other_reg is not None:
         # an `other: &mut Self` parameter: the IR function hands back the second store
         if rk is not None:
@@ -2963,7 +2926,7 @@ def small_checks(sources):
     problems = []
     try:
         texts = all_src_files()
-    except OSError as ex:
+    except (OSError, Unparsed) as ex:
         return ["cannot read the sources: %s" % ex]
     for file, text in texts.items():
         if re.search(r"\bmacro_rules\b", text):
@@ -3160,11 +3123,11 @@ def lower_small(fnid, file, sel, rust, kind, sources):
                 raise Unparsed("`IterMut::new` must take `pq`")
             lw.nreg = 0
             lw.vars = []
-            body = lw.body(parse_fn_body(replace_yield(btoks)))
+            body = lw.body(parse_fn_body(replace_yield(btoks), fnid))
             return {"nparams": [], "pparams": [], "vparams": [], "body": body, "loops": [], "vars": lw.vars}
         if [p[0] for p in params] != ["self"]:
             raise Unparsed("a method of an iterator must take only `self`")
-        body = lw.body(parse_fn_body(replace_yield(btoks)))
+        body = lw.body(parse_fn_body(replace_yield(btoks), fnid))
         np_ = list(range(len(lw.fields)))
         return {"nparams": np_, "pparams": [], "vparams": [], "body": body, "loops": [], "vars": lw.vars}
     if kd == "intovec":
@@ -3174,7 +3137,7 @@ def lower_small(fnid, file, sel, rust, kind, sources):
             if vals != tok_vals("{ self.map.into_iter().map(|(i, _)| i).collect() }"):
                 raise Unparsed("`Store::into_vec` is not `self.map.into_iter().map(|(i, _)| i).collect()`")
             return {"nparams": [], "pparams": [], "vparams": [], "body": [("retMapItems",)], "loops": [], "vars": []}
-        blk = parse_fn_body(btoks)
+        blk = parse_fn_body(btoks, fnid)
         if blk[1] or blk[2] != ("mcall", ("field", ("path", ["self"]), "store"), "into_vec", []):
             raise Unparsed("`into_vec` is not `self.store.into_vec()`")
         return {"nparams": [], "pparams": [], "vparams": [], "body": [("callV", 0, "storeIntoVec", []), ("retV", 0)],
@@ -3183,7 +3146,7 @@ def lower_small(fnid, file, sel, rust, kind, sources):
         owner = kind.partition(":")[2]
         if [p[0] for p in params] != ["self"]:
             raise Unparsed("must take only `self`")
-        blk = parse_fn_body(btoks)
+        blk = parse_fn_body(btoks, fnid)
         ok = (len(blk[1]) == 2 and blk[2] == ("path", ["res"])
               and blk[1][0] == ("let", ("pid", "res", True),
                                 ("call", ("path", ["Vec", "with_capacity"]),
@@ -3205,7 +3168,7 @@ def lower_small(fnid, file, sel, rust, kind, sources):
         if [p[0] for p in params] != ["self", "other"]:
             raise Unparsed("`eq` must take `self` and `other`")
         hdr = " ".join(item_header(sources[file], fn_idx))
-        blk = parse_fn_body(btoks)
+        blk = parse_fn_body(btoks, fnid)
         if blk[1] or blk[2] != ("bin", "==", ("field", ("path", ["self"]), "map"), ("field", ("path", ["other"]), "map")):
             raise Unparsed("`Store::eq` is not `self.map == other.map`")
         return {"nparams": [], "pparams": [], "vparams": [0, 1], "body": [("retMapEqBy", 0, 1)], "loops": [],
@@ -3213,7 +3176,7 @@ def lower_small(fnid, file, sel, rust, kind, sources):
     if kd == "serialize":
         if [p[0] for p in params] != ["self", "serializer"]:
             raise Unparsed("`serialize` must take `self` and `serializer`")
-        blk = parse_fn_body(btoks)
+        blk = parse_fn_body(btoks, fnid)
         want = ("block",
                 [("let", ("pid", "map_serializer", True),
                   ("try", ("mcall", ("path", ["serializer"]), "serialize_seq",
@@ -3240,7 +3203,7 @@ def lower_cap(rust, sources):
     takes_arg = rust not in ("shrink_to_fit", "capacity")
     if names != (["self", "additional"] if takes_arg else ["self"]):
         raise Unparsed("unexpected parameters of `Store::%s`" % rust)
-    blk = parse_fn_body(btoks)
+    blk = parse_fn_body(btoks, None)
 
     def call(e):
         q = False
@@ -3312,6 +3275,15 @@ def main():
             sources[f] = []
     results, unparsed = {}, {}
     global_problems = [] if src_err else global_checks(sources)
+    for ent in FUNCS:
+        if ent[2] not in src_skeleton.BODY_READ_ELSEWHERE.get(ent[1], set()):
+            global_problems.append("internal: %s::%s is translated but its body is not exempted in src_skeleton.py" % (ent[1], ent[2]))
+    for ent in SMALL_FUNCS:
+        if ent[3] not in src_skeleton.BODY_READ_ELSEWHERE.get(ent[1], set()):
+            global_problems.append("internal: %s::%s is translated but its body is not exempted in src_skeleton.py" % (ent[1], ent[3]))
+    for _, rust in CAP_FUNCS:
+        if rust not in src_skeleton.BODY_READ_ELSEWHERE.get(STORE_RS, set()):
+            global_problems.append("internal: store.rs::%s is translated but its body is not exempted in src_skeleton.py" % rust)
     report["global_problems"] = global_problems
     for entry in FUNCS:
         fnid, file, rust, owner, sites = entry[:5]
